@@ -215,7 +215,8 @@ def extra_checks(rng, tier, us, oc):
     out, known = [], []
     groups = {}
     for i, u in enumerate(us):
-        groups.setdefault(u["group"], []).append(i)
+        if "group" in u and "role" in u:
+            groups.setdefault(u["group"], []).append(i)
     import json, os
     kf = json.load(open(os.path.join(os.path.dirname(os.path.dirname(os.path.dirname(os.path.abspath(__file__)))), "known_findings.json")))
     rnp_line = [f["line"] for f in kf["findings"] if f["id"] == "rnp-suboptimal"]
